@@ -158,6 +158,14 @@ class SeenSet:
                 return True
         return False
 
+    def discard(self, assignment):
+        """
+        Take back an assignment that was added (the same object).
+        """
+        self.seen[:] = [constraint for constraint in self.seen if constraint is not assignment]
+        if not assignment:
+            self.all_seen = False
+
     def clear(self):
         self.seen.clear()
         self.all_seen = False
